@@ -275,6 +275,18 @@ func init() {
 		modelsUsed["os.Hostname -> \"host\""]++
 		return TupleV{StringV{conc: "host"}, Iface{}}
 	}
+	// uuid.NewRandom (crypto/rand): distinct identifiers from a counter
+	models["github.com/google/uuid.NewRandom"] = func(e *Engine, st *State, args []Value, call *ssa.Call, pos token.Pos) Value {
+		modelsUsed["uuid.NewRandom -> distinct counter-based identifiers"]++
+		e.uuidN++
+		el := make([]Value, 16)
+		for i := range el {
+			el[i] = BV(8, 0)
+		}
+		el[6], el[8] = BV(8, 0x40), BV(8, 0x80)
+		el[14], el[15] = BV(8, uint64(e.uuidN>>8)), BV(8, uint64(e.uuidN))
+		return TupleV{ArrayV{e: el}, Iface{}}
+	}
 	models["(*sync.Mutex).TryLock"] = func(e *Engine, st *State, args []Value, call *ssa.Call, pos token.Pos) Value { return Bool(true) }
 	models["time.Now"] = func(e *Engine, st *State, args []Value, call *ssa.Call, pos token.Pos) Value {
 		// time.Time{wall uint64, ext int64, loc *Location}: wall without the monotonic bit, ext = seconds since year 1.
